@@ -45,6 +45,10 @@ def cases(seed, tier):
         elif r < 0.5 and live:
             t = live.pop(rng.randrange(len(live)))
             case["script"].append({"do": "unsubscribe", "token": t})
+        elif r < 0.56:
+            # everything is unsubscribed at once (what RE.reset() does); later subscriptions live and die as usual
+            case["script"].append({"do": "unsubscribe_all"})
+            live = []
         else:
             ncalls += 1
             body = []
@@ -96,6 +100,8 @@ def check(res):
             permanent[step["token"]] = (step["cb"], step.get("name", "all"))
         elif do == "unsubscribe":
             permanent.pop(step["token"], None)
+        elif do == "unsubscribe_all":
+            permanent.clear()
         elif do == "call":
             inv = next(inv_iter, None)
             if inv is None:
